@@ -52,7 +52,7 @@ func metadataDump(rm *protocol.ResolutionModel) string {
 }
 
 func checkC02(c *hx.Ctx) {
-	c.Rule("operation sets with competing operations: 2-3 valid updates / recovers consuming the same commitment with different successors, several creates, replayed operations and unpublished competitors; pairwise distinct (time, number) pairs drawn so that time order and number order disagree; the store returns the published operations in every permutation (n<=6) or in 24 random permutations plus sorted and reversed; oracle: identical resolution result and identical document metadata (both operation lists) for every order, equal to the reference model (earliest (time, number) wins, published before unpublished); non-trivial = the set contains at least one fork or duplicate create")
+	c.Rule("operation sets with competing operations: 2-3 valid updates / recovers consuming the same commitment with different successors, several creates, replayed operations and unpublished competitors; pairwise distinct (time, number) pairs drawn so that time order and number order disagree; the store returns the published operations in every permutation (n<=6) or in 24 random permutations plus sorted and reversed; oracle: identical resolution result and identical document metadata (both operation lists) for every order, equal to the reference model (earliest (time, number) wins, published before unpublished); plus competitions that straddle a protocol upgrade (version 0 allows sha2-256 only, version 100 sha2-512 and sha2-256): each competitor is judged by the rules of the version it was anchored under, the earliest applicable one wins; non-trivial = the set contains at least one fork or duplicate create")
 	nCases := c.N(1200, 25000)
 	root := c.Rng("cases")
 	seeds := make([]uint64, nCases)
@@ -216,8 +216,99 @@ func checkC02(c *hx.Ctx) {
 			c.Sample(2, map[string]interface{}{"ops": histString(ops), "orders": len(orders), "result": first})
 		}
 	})
+	c02TwoVersions(c)
+	c.Floor("two_version_competitions", 100)
 	c.Floor("sets_with_disagreeing_time_and_number_order", 50)
 	c.Floor("sets_with_unpublished_competitor", 20)
 	c.Floor("additional_operation_splits", 100)
 	c.Floor("sets_with_unpublished_create", 20)
+}
+
+// c02TwoVersions: competitors for one commitment anchored under different protocol versions whose parser rules differ.
+// Version 0 (genesis 0) allows sha2-256 only, version 100 allows sha2-512 and sha2-256. A competitor is applicable
+// only under the rules of the version stamped on it, so an early sha2-512 operation stamped with version 0 is
+// ignored, and an early invalid version-0 operation must not make the library judge the later version-100 operation by
+// version-0 rules.
+func c02TwoVersions(c *hx.Ctx) {
+	nCases := c.N(300, 6000)
+	root := c.Rng("two-versions")
+	seeds := make([]uint64, nCases)
+	for i := range seeds {
+		seeds[i] = root.U64()
+	}
+	hx.Parallel(nCases, 16, func(i int) {
+		r := hx.NewRng(seeds[i], "c02v")
+		p0 := hx.BaseProtocol()
+		p0.MultihashAlgorithms = []uint{ref.SHA256}
+		p1 := p0
+		p1.GenesisTime = 100
+		p1.MultihashAlgorithms = []uint{ref.SHA512, ref.SHA256}
+		pc := hx.NewClient(hx.NewVersion(p0, hx.VersionOpts{ParserOpts: hx.StrictResolution()}), hx.NewVersion(p1, hx.VersionOpts{ParserOpts: hx.StrictResolution()}))
+		u := NewUniverse(r.Split("u"), ref.SHA256, p0, []string{hx.Pick(r, ref.KeyTypes), "P-256"})
+		cm := func(k *ref.Key, code uint64) string { return k.Commitment(code) }
+		svc := func(id string) []interface{} {
+			return []interface{}{patchAddServices(svcEntry(id, "web", "https://example.com/"+id))}
+		}
+		kind := hx.Pick(r, []string{"update", "recover"})
+		mk := func(label string, code uint64, o SignedOpts) *ref.Op {
+			// an operation that reveals U0/R0 (sha2-256 reveal value, matching the create) and commits / hashes its delta with `code`
+			o.DeltaCode = code
+			var d *ref.Op
+			if kind == "update" {
+				d = u.MkSigned(label, "update", u.U[0], "", cm(u.U[1], code), svc(label), o)
+			} else {
+				d = u.MkSigned(label, "recover", u.R[0], cm(u.R[1], code), cm(u.U[1], code), svc(label), o)
+			}
+			return d
+		}
+		create := Place(u.MkCreate("C", ref.DeltaOK), 10, 0, "refC", 0)
+		var ops []*ref.Op
+		ops = append(ops, create)
+		// early competitors anchored under version 0
+		nEarly := 1 + r.Intn(2)
+		for k := 0; k < nEarly; k++ {
+			var e *ref.Op
+			switch r.Intn(4) {
+			case 0:
+				e = mk(fmt.Sprintf("v0-wrongsigner%d", k), ref.SHA256, SignedOpts{SigningKey: u.X[0]})
+			case 1:
+				e = mk(fmt.Sprintf("v0-tampered%d", k), ref.SHA256, SignedOpts{Tamper: true})
+			case 2:
+				// sha2-512 is not allowed under version 0: not applicable although genuinely signed
+				e = mk(fmt.Sprintf("v0-sha512%d", k), ref.SHA512, SignedOpts{})
+				e.Parses, e.Authorised = false, false
+			default:
+				e = mk(fmt.Sprintf("v0-delta-mismatch%d", k), ref.SHA256, SignedOpts{DeltaStatus: ref.DeltaMismatch})
+			}
+			ops = append(ops, Place(e, uint64(20+10*k+r.Intn(5)), uint64(r.Intn(4)), fmt.Sprintf("e%d", k), 0))
+		}
+		// later competitors anchored under version 100, using sha2-512 (allowed there) or sha2-256
+		nLate := 1 + r.Intn(2)
+		for k := 0; k < nLate; k++ {
+			code := uint64(ref.SHA512)
+			if r.Chance(1, 3) {
+				code = ref.SHA256
+			}
+			l := mk(fmt.Sprintf("v100-valid%d-sha%d", k, code), code, SignedOpts{})
+			ops = append(ops, Place(l, uint64(120+10*k+r.Intn(5)), uint64(r.Intn(4)), fmt.Sprintf("l%d", k), 100))
+		}
+		for _, o := range ops {
+			o.MaxDelta = int64(p0.MaxOperationTimeDelta)
+		}
+		c.Eval()
+		st, merr := ref.Resolve(ops, ref.ResolveOpts{})
+		want := stKey(st, merr)
+		for k := 0; k < 3; k++ {
+			rm, err := SUTResolve(pc, u.Suffix, ops, r.Perm(len(ops)))
+			if got := rmKey(rm, err); got != want {
+				c.Violation(fmt.Sprintf("C02 competitors anchored under different protocol versions: the earliest applicable operation (judged by the version it was anchored under) did not win: ops=[%s]\n   model:   %s\n   library: %s", histString(ops), want, got),
+					map[string]interface{}{"suffix": u.Suffix, "ops": replayOps(ops), "model": want, "library": got})
+				return
+			}
+		}
+		if merr == nil && len(st.Applied) >= 2 {
+			c.Count("two_version_competitions")
+			c.Distinct("2v|" + histString(ops))
+		}
+	})
 }
